@@ -226,11 +226,10 @@ Module DacTree.
     /\ snd (go_rename dfs (svu alice 18) o p) = SOk.
   Proof.
     split; [|vm_compute; reflexivity].
-    apply (dstep_rename_file_new dfs (svu alice 18) [n_h] n_f [n_h; n_s] n_g (dtree_hyps alice 18)); [path_ok_tac|path_ok_tac| | | |].
+    apply (dstep_rename_file_new dfs (svu alice 18) [n_h] n_f [n_h; n_s] n_g (dtree_hyps alice 18)); [path_ok_tac|path_ok_tac| | |].
     - intros par kind name n HK. vm_compute in HK. injection HK as _ _ _ <-. reflexivity.
     - intros par kind name n HK. vm_compute in HK. discriminate HK.
     - intros par name md e HK. vm_compute in HK. discriminate HK.
-    - intros par kind name n HK. vm_compute in HK. injection HK as <- _ _ <-. reflexivity.
   Qed.
 
   (* alice renames her directory /h/s to /h/g (same parent: no write permission on the moved directory is needed) *)
@@ -241,11 +240,10 @@ Module DacTree.
     /\ snd (go_rename dfs (svu alice 18) o p) = SOk.
   Proof.
     split; [|vm_compute; reflexivity].
-    apply (dstep_rename_dir_new dfs (svu alice 18) [n_h] n_s [n_h] n_g (dtree_hyps alice 18)); [path_ok_tac|path_ok_tac| | | | | |].
+    apply (dstep_rename_dir_new dfs (svu alice 18) [n_h] n_s [n_h] n_g (dtree_hyps alice 18)); [path_ok_tac|path_ok_tac| | | | |].
     - intros par kind name n HK. vm_compute in HK. injection HK as _ _ _ <-. reflexivity.
     - intros par kind name n HK. vm_compute in HK. discriminate HK.
     - intros par name md e HK. vm_compute in HK. discriminate HK.
-    - intros par kind name n HK. vm_compute in HK. injection HK as <- _ _ <-. reflexivity.
     - intros opar okind oname oc npar nname md HKo HKn. vm_compute in HKo, HKn.
       injection HKo as _ _ _ <-. injection HKn as <- _ _. vm_compute. split; reflexivity.
     - intros opar okind oname oc npar nname md HKo HKn. vm_compute in HKo, HKn.
@@ -261,23 +259,39 @@ Module DacTree.
     /\ snd (go_rename dfs (svu alice 18) o p) = SErr EACCES.
   Proof.
     split; [|vm_compute; reflexivity].
-    apply (dstep_rename_replace_result dfs (svu alice 18) [n_e] n_q [n_h] n_f (dtree_hyps alice 18)); [path_ok_tac|path_ok_tac| | | | | |].
+    apply (dstep_rename_replace_result dfs (svu alice 18) [n_e] n_q [n_h] n_f (dtree_hyps alice 18)); [path_ok_tac|path_ok_tac| | | |].
     - intros par kind name n HK. vm_compute in HK. injection HK as _ _ _ <-. reflexivity.
     - eexists _, _, _, _. vm_compute. reflexivity.
     - intros par kind name n HK. vm_compute in HK. injection HK as _ _ _ <-. split; reflexivity.
     - intros opar okind oname oc npar nkind nname nc HKo HKn. vm_compute in HKo, HKn.
       injection HKo as _ _ _ <-. injection HKn as _ _ _ <-. discriminate.
-    - intros par kind name n HK. vm_compute in HK. injection HK as <- _ _ <-. reflexivity.
-    - intros par kind name n HK. vm_compute in HK. injection HK as <- _ _ <-. reflexivity.
   Qed.
 
-  (* ---- Remove: the side condition is necessary.  /t is sticky, /t/b is bob's: alice (who may write /t) is refused by
-     the kernel with EPERM, MemFS removes the file (listed: C03-STICKY) ------------------------------------------- *)
-  Example remove_sticky_differs :
+  (* ---- Remove in a sticky directory.  /t is sticky, /t/b is bob's: alice (who may write /t) is refused with EPERM on
+     both sides (the former deviation C03-STICKY: MemFS removed the file) ------------------------------------------- *)
+  Example remove_sticky_refused :
+    let p := abs_path ([n_t] ++ [n_b]) in
     sticky_refuses dtree 6 7 alice = true
-    /\ snd (go_remove dfs (svu alice 18) (abs_path [n_t; n_b])) = SErr EPERM
-    /\ proj_res Linux (snd (remove dfs (view_of alice 18) (abs_path [n_t; n_b]))) = SOk.
-  Proof. vm_compute. repeat split; reflexivity. Qed.
+    /\ (fst (remove dfs (view_of alice 18) p), proj_res Linux (snd (remove dfs (view_of alice 18) p))) = go_remove dfs (svu alice 18) p
+    /\ snd (go_remove dfs (svu alice 18) p) = SErr EPERM.
+  Proof.
+    split; [vm_compute; reflexivity|]. split; [|vm_compute; reflexivity].
+    apply (dstep_remove dfs (svu alice 18) [n_t] n_b (dtree_hyps alice 18)); [path_ok_tac|exact dtree_sym_single].
+  Qed.
+
+  (* alice may not rename bob's /t/b either: EPERM on both sides *)
+  Example rename_sticky_refused :
+    let o := abs_path ([n_t] ++ [n_b]) in
+    let p := abs_path ([n_t] ++ [n_g]) in
+    (fst (rename dfs (view_of alice 18) o p), proj_res Linux (snd (rename dfs (view_of alice 18) o p))) = go_rename dfs (svu alice 18) o p
+    /\ snd (go_rename dfs (svu alice 18) o p) = SErr EPERM.
+  Proof.
+    split; [|vm_compute; reflexivity].
+    apply (dstep_rename_file_new dfs (svu alice 18) [n_t] n_b [n_t] n_g (dtree_hyps alice 18)); [path_ok_tac|path_ok_tac| | |].
+    - intros par kind name n HK. vm_compute in HK. injection HK as _ _ _ <-. reflexivity.
+    - intros par kind name n HK. vm_compute in HK. discriminate HK.
+    - intros par name md e HK. vm_compute in HK. discriminate HK.
+  Qed.
 
   (* bob, the owner of the entry, is covered by the theorem and succeeds on both sides *)
   Example remove_sticky_owner :
@@ -286,8 +300,7 @@ Module DacTree.
     /\ snd (go_remove dfs (svu bob 18) p) = SOk.
   Proof.
     split; [|vm_compute; reflexivity].
-    apply (dstep_remove dfs (svu bob 18) [n_t] n_b (dtree_hyps bob 18)); [path_ok_tac|exact dtree_sym_single|].
-    intros par kind name n HK. vm_compute in HK. injection HK as <- _ _ <-. reflexivity.
+    apply (dstep_remove dfs (svu bob 18) [n_t] n_b (dtree_hyps bob 18)); [path_ok_tac|exact dtree_sym_single].
   Qed.
 
   (* ---- Chmod.  alice owns /e/q whose group (2000) she is not a member of; she asks for mode 02644: chmod(2) drops
